@@ -247,6 +247,64 @@ RECURSIVE TagFork(_)
 TagFork(sigs) == IF sigs = <<>> THEN <<>>
                  ELSE LET ps == ForkProps(Head(sigs)) IN [i \in DOMAIN ps |-> ps[i] \o ":" \o Head(sigs)] \o TagFork(Tail(sigs))
 
+(* C12 / C03: the client of a fork history reconnects with the cursor of a message it received (record "forkresume").
+   The junction is computed HERE from the fork tree (parent links of the arrival list) and the canonical chain rebuilt from
+   the steps; the harness's own resolver answer is logged but not trusted. Expected: when the cursor's block was orphaned,
+   first an undo signal designating the junction, then (in both cases) exactly the canonical blocks above the junction /
+   above the cursor's block; the client model continues from what the client held when it received that message. *)
+ForkResumeFails(r) ==
+  LET steps == r.steps  o == r.obs  c == r.cfg
+      first == IF steps = <<>> THEN 0 ELSE steps[1].num
+      pre == IF first <= LowestInit(prog) THEN <<>>
+             ELSE [k \in 1..(first - LowestInit(prog)) |-> Blk(LowestInit(prog) + k - 1)]
+      canonEnd == CanonAfter(steps, Len(steps))
+      full == pre \o canonEnd
+      res == RunChain(prog, full)
+      OnFull(id) == \E j \in DOMAIN full : full[j].id = id
+      Par(id) == IF \E i \in DOMAIN r.arrival : r.arrival[i].id = id
+                 THEN r.arrival[CHOOSE i \in DOMAIN r.arrival : r.arrival[i].id = id].parent ELSE ""
+      RECURSIVE Anc(_, _)
+      Anc(id, fuel) == IF OnFull(id) \/ id = "" \/ fuel = 0 THEN id ELSE Anc(Par(id), fuel - 1)
+      b == [num |-> r.from.curnum, id |-> r.from.curid]          \* the block the cursor designates
+      jid == Anc(b.id, 64)
+      known == OnFull(jid)
+      jnum == IF known THEN full[CHOOSE j \in DOMAIN full : full[j].id = jid].num ELSE 0
+      forked == jid # b.id
+      expBlocks == SelectSeq(full, LAMBDA x : x.num > jnum /\ x.num < c.stop)
+      datas == SelectSeq(o.resp, LAMBDA m : m.kind = "data")
+      undos == SelectSeq(o.resp, LAMBDA m : m.kind = "undo")
+      expectedFor(h) == LET idx == CHOOSE i \in DOMAIN full : full[i].id = h.id IN PayloadOf(res[idx], OutMod.name)
+      whole == r.before \o o.resp
+      client == ClientAfter(whole, Len(whole))
+      lo == Max(r.base, c.start)
+      heldFork == SelectSeq(client.held, LAMBDA h : h.num >= lo)
+      canonFork == SelectSeq(canonEnd, LAMBDA x : x.num >= lo /\ x.num < c.stop)
+  IN
+  IF o.panic # "" THEN <<"panic">>
+  ELSE IF o.err # "" THEN <<FailSig(r)>>
+  ELSE IF ~known THEN <<>>
+  ELSE
+     F(forked => (o.resp # <<>> /\ o.resp[1].kind = "undo"), "resume_from_forked_cursor_without_undo_signal_first")
+  \o F((forked /\ o.resp # <<>> /\ o.resp[1].kind = "undo") => (o.resp[1].num = jnum /\ o.resp[1].id = jid),
+       "resume_undo_signal_does_not_designate_the_junction")
+  \o F(Len(undos) <= (IF forked THEN 1 ELSE 0), "resume_sends_undo_signal_without_fork")
+  \o F([i \in DOMAIN datas |-> datas[i].id] = [i \in DOMAIN expBlocks |-> expBlocks[i].id],
+       "resumed_stream_is_not_the_canonical_chain_right_after_the_junction")
+  \o F(\A i \in DOMAIN datas : OnFull(datas[i].id) => datas[i].payload = expectedFor(datas[i]),
+       "resumed_payload_differs_from_canonical_execution")
+  \o F(\A i \in DOMAIN o.resp : o.resp[i].curnum = o.resp[i].num /\ o.resp[i].curid = o.resp[i].id, "resumed_cursor_designates_other_block")
+  \o F(client.ok, "reconnected_client_sees_two_blocks_at_same_height_without_undo")
+  \o F(client.undoOK, "reconnected_client_undo_signal_designates_block_it_does_not_hold")
+  \o F([i \in DOMAIN heldFork |-> heldFork[i].id] = [i \in DOMAIN canonFork |-> canonFork[i].id],
+       "reconnected_client_does_not_converge_on_canonical_chain")
+
+ForkResumeProps(sig) == IF Len(sig) >= 6 /\ SubSeq(sig, 1, 6) = "resume" THEN <<"C12", "C03">>
+                        ELSE IF Len(sig) >= 14 /\ SubSeq(sig, 1, 14) = "request_failed" THEN <<"C03", "C12", "C01">>
+                        ELSE <<"C03">>
+RECURSIVE TagForkResume(_)
+TagForkResume(sigs) == IF sigs = <<>> THEN <<>>
+                       ELSE LET ps == ForkResumeProps(Head(sigs)) IN [i \in DOMAIN ps |-> ps[i] \o ":" \o Head(sigs)] \o TagForkResume(Tail(sigs))
+
 ParseFrom(cur) == \* "resume:<num>"
   LET digits == SubSeq(cur, 8, Len(cur))
       RECURSIVE V(_, _)
@@ -275,6 +333,10 @@ Next ==
         /\ bad' = IF f = <<>> THEN bad ELSE Append(bad, [i |-> l, why |-> f, dbg |-> <<>>])
         /\ drift' = LET d == ForkDrift(r) IN IF d = <<>> THEN drift ELSE Append(drift, [i |-> l, why |-> d])
         /\ UNCHANGED <<prog, seg, ref, orig>>
+     ELSE IF r.ev = "forkresume" THEN
+        LET f == TagForkResume(ForkResumeFails(r)) IN
+        /\ bad' = IF f = <<>> THEN bad ELSE Append(bad, [i |-> l, why |-> f, dbg |-> <<>>])
+        /\ UNCHANGED <<drift, prog, seg, ref, orig>>
      ELSE
         LET from == IF r.cfg.cursor = "" THEN 0 ELSE ParseFrom(r.cfg.cursor)
             f == TagAll(RunFails(r, from) \o ResumeFails(r, from), r)
